@@ -252,3 +252,57 @@ fix_bufgrow_bad2 (FILE *fp, size_t *lenp)
   *lenp = alloc_size;
   return str;
 }
+
+/* pass-through helper: returns the block it was given, possibly moved by the reallocate function */
+static char *
+fix_pt_store (char *s, size_t *upto, size_t *alloc, int c)
+{
+  if (*upto >= *alloc)
+    {
+      size_t  na = *alloc + 64;
+      s = (char *) (*__gmp_reallocate_func) (s, *alloc, na);
+      *alloc = na;
+    }
+  s[(*upto)++] = c;
+  return s;
+}
+
+/* not a pass-through: hands back a fresh copy and forgets the old block */
+static char *
+fix_pt_copy (char *s, size_t *upto, size_t *alloc, int c)
+{
+  size_t  na = *alloc + 64;
+  char   *t = (char *) (*__gmp_allocate_func) (na);
+  memcpy (t, s, *upto);
+  t[(*upto)++] = c;
+  *alloc = na;
+  return t;
+}
+
+/* negative: the caller keeps owning the one block */
+int
+fix_passthru_good (FILE *fp)
+{
+  size_t  alloc = 64, upto = 0;
+  char   *s = (char *) (*__gmp_allocate_func) (alloc);
+  int     c;
+  while ((c = getc (fp)) != EOF)
+    s = fix_pt_store (s, &upto, &alloc, c);
+  c = (int) upto;
+  (*__gmp_free_func) (s, alloc);
+  return c;
+}
+
+/* positive: every call drops the block s pointed to */
+int
+fix_passthru_bad (FILE *fp)
+{
+  size_t  alloc = 64, upto = 0;
+  char   *s = (char *) (*__gmp_allocate_func) (alloc);
+  int     c;
+  while ((c = getc (fp)) != EOF)
+    s = fix_pt_copy (s, &upto, &alloc, c);
+  c = (int) upto;
+  (*__gmp_free_func) (s, alloc);
+  return c;
+}
